@@ -172,6 +172,29 @@ def uses_n(t):
     return any(uses_n(x) for x in t[1:] if isinstance(x, tuple))
 
 
+def pow2(d):
+    d = abs(int(d))
+    return d > 0 and d & (d - 1) == 0
+
+
+def dyadic(t):
+    """every constant of the tree is a dyadic rational and every constant divisor a power of two: with integer samples
+    all intermediate values are then exactly representable and float evaluation is exact"""
+    k = t[0]
+    if k == 'c':
+        return pow2(Fraction(t[1]).denominator)
+    if k in ('n', 'var', 'i', 'fact0'):
+        return True
+    if k == 'divc':
+        q = Fraction(t[2])
+        return pow2(q.denominator) and pow2(q.numerator) and dyadic(t[1])
+    if k == 'pow':
+        return False
+    if k == 'vec':
+        return all(dyadic(x) for x in t[1])
+    return all(dyadic(x) for x in t[1:] if isinstance(x, tuple))
+
+
 def fr(c):
     c = Fraction(c)
     if c.denominator == 1:
